@@ -34,9 +34,9 @@ LEVEL = 'model_checking'
 
 CFGS = {
     'quick': [('Untrusted_quick.cfg', 'chains <= 5 segments, <= 1 unusual spelling (or all alike), 6 embeddings'),
-              ('Untrusted_quick_emb.cfg', 'plain chains <= 4 segments, 23 embeddings, second chain <= 3 segments')],
-    'thorough': [('Untrusted_thorough.cfg', 'chains <= 5 segments, <= 2 unusual spellings (or all alike), 14 embeddings'),
-                 ('Untrusted_thorough_emb.cfg', 'plain chains <= 5 segments, 26 embeddings, second chain <= 3 segments')],
+              ('Untrusted_quick_emb.cfg', 'plain chains <= 4 segments, 24 embeddings, second chain <= 3 segments')],
+    'thorough': [('Untrusted_thorough.cfg', 'chains <= 5 segments, <= 2 unusual spellings (or all alike), 15 embeddings'),
+                 ('Untrusted_thorough_emb.cfg', 'plain chains <= 5 segments, 27 embeddings, second chain <= 3 segments')],
 }
 
 # ---- workflow renderings: (name, is script position, template of the steps)
@@ -62,6 +62,176 @@ POSITIONS = [
     ('if-bare', False, '      - run: echo\n        if: "%s"\n'),
     ('name', False, '      - name: "${{ %s }}"\n        run: echo\n'),
 ]
+
+
+# ---- systematic non-script positions: every checkString / checkBool / checkInt / checkFloat /
+# checkIfCondition / checkRawYAMLString site of rule_expression.go where the `github` context is
+# available (sites whose workflow key is "" - shell, uses, id, on.* ... - allow no context at all).
+# One document; @@name@@ is replaced by the default, or by the expression at the position under test.
+NS_BASE = """name: w
+run-name: @@run-name@@
+on:
+  push:
+  workflow_call:
+    inputs:
+      a:
+        type: string
+        default: @@workflow-call-input-default@@
+    outputs:
+      o:
+        value: @@workflow-call-output-value@@
+env:
+  WV: @@workflow-env@@
+concurrency:
+  group: @@workflow-concurrency-group@@
+  cancel-in-progress: @@workflow-concurrency-cancel@@
+jobs:
+  j:
+    name: @@job-name@@
+    runs-on: @@runs-on@@
+    if: @@job-if@@
+    environment:
+      name: @@environment-name@@
+      url: @@environment-url@@
+    concurrency:
+      group: @@job-concurrency-group@@
+    env:
+      JV: @@job-env@@
+    defaults:
+      run:
+        working-directory: @@job-defaults-working-directory@@
+        shell: @@job-defaults-shell@@
+    strategy:
+      fail-fast: @@strategy-fail-fast@@
+      max-parallel: @@strategy-max-parallel@@
+      matrix:@@matrix@@
+    timeout-minutes: @@job-timeout-minutes@@
+    continue-on-error: @@job-continue-on-error@@
+    container:
+      image: @@container-image@@
+      credentials:
+        username: @@container-credentials-username@@
+        password: @@container-credentials-password@@
+      env:
+        CV: @@container-env@@
+      ports:
+        - @@container-port@@
+      volumes:
+        - @@container-volume@@
+      options: @@container-options@@
+    services:
+      s:
+        image: @@service-image@@
+        env:
+          SV: @@service-env@@
+        ports:
+          - @@service-port@@
+        options: @@service-options@@
+    outputs:
+      o: @@job-output@@
+    steps:
+      - name: @@step-name@@
+        if: @@step-if@@
+        run: echo
+        working-directory: @@step-working-directory@@
+        env:
+          TV: @@step-env@@
+        continue-on-error: @@step-continue-on-error@@
+        timeout-minutes: @@step-timeout-minutes@@
+      - uses: actions/checkout@v4
+        with:
+          ref: @@with-other-action@@
+      - uses: actions/github-script@v7
+        with:
+          script: "1"
+          result-encoding: @@github-script-other-input@@
+      - uses: actions/github-scripts@v7
+        with:
+          script: @@other-action-script-input@@
+      - uses: docker://alpine:3
+        with:
+          entrypoint: @@with-entrypoint@@
+          args: @@with-args@@
+  c:
+    uses: o/r/.github/workflows/w.yml@main
+    with:
+      x: @@call-with@@
+    secrets:
+      t: @@call-secret@@
+"""
+PLAIN = '"${{ %s }}"'
+# name -> (default text, text at test with %s = the expression)
+NS_POS = {
+    'run-name': ('"r"', PLAIN),
+    'workflow-call-input-default': ('"d"', PLAIN),
+    'workflow-call-output-value': ('"v"', PLAIN),
+    'workflow-env': ('"e"', PLAIN),
+    'workflow-concurrency-group': ('"g"', '"g-${{ %s }}"'),
+    'workflow-concurrency-cancel': ('true', PLAIN),
+    'job-name': ('"n"', PLAIN),
+    'runs-on': ('ubuntu-latest', PLAIN),
+    'job-if': ('true', PLAIN),
+    'job-if-bare': ('true', '"%s"'),
+    'environment-name': ('"prod"', PLAIN),
+    'environment-url': ('"https://example.com"', '"https://example.com/${{ %s }}"'),
+    'job-concurrency-group': ('"jg"', PLAIN),
+    'job-env': ('"e"', PLAIN),
+    'job-defaults-working-directory': ('"."', '"packages/${{ %s }}"'),
+    'job-defaults-shell': ('bash', PLAIN),
+    'strategy-fail-fast': ('false', PLAIN),
+    'strategy-max-parallel': ('1', PLAIN),
+    'matrix': (' ${{ fromJSON(vars.M) }}', None),
+    'job-timeout-minutes': ('5', PLAIN),
+    'job-continue-on-error': ('false', PLAIN),
+    'container-image': ('"alpine:3"', '"alpine:${{ %s }}"'),
+    'container-credentials-username': ('"u"', PLAIN),
+    'container-credentials-password': ('"${{ secrets.P }}"', PLAIN),
+    'container-env': ('"e"', PLAIN),
+    'container-port': ('"80"', PLAIN),
+    'container-volume': ('"/a:/b"', '"/a:/${{ %s }}"'),
+    'container-options': ('"--cpus 1"', '"--name ${{ %s }}"'),
+    'service-image': ('"redis:7"', PLAIN),
+    'service-env': ('"e"', PLAIN),
+    'service-port': ('"6379"', PLAIN),
+    'service-options': ('"--cpus 1"', PLAIN),
+    'job-output': ('"o"', PLAIN),
+    'step-name': ('"s"', PLAIN),
+    'step-if': ('true', PLAIN),
+    'step-if-bare': ('true', '"%s"'),
+    'step-working-directory': ('"."', '"packages/${{ %s }}"'),
+    'step-env': ('"e"', PLAIN),
+    'step-continue-on-error': ('false', PLAIN),
+    'step-timeout-minutes': ('5', PLAIN),
+    'with-other-action': ('"main"', PLAIN),
+    'github-script-other-input': ('"string"', PLAIN),
+    'other-action-script-input': ('"1"', '"console.log(${{ %s }})"'),
+    'with-entrypoint': ('"/bin/sh"', PLAIN),
+    'with-args': ('"-c true"', '"-c ${{ %s }}"'),
+    'call-with': ('"x"', PLAIN),
+    'call-secret': ('"${{ secrets.T }}"', PLAIN),
+    # values of a literal matrix (checkRawYAMLString)
+    'matrix-row-value': (None, '\n        v:\n          - "${{ %s }}"'),
+    'matrix-include-value': (None, '\n        v: [1]\n        include:\n          - w: "${{ %s }}"'),
+}
+# markers that two positions share
+NS_MARKER = {'job-if-bare': 'job-if', 'step-if-bare': 'step-if', 'matrix-row-value': 'matrix', 'matrix-include-value': 'matrix'}
+
+NS_TEST = [p for p in NS_POS if NS_POS[p][1] is not None]
+
+
+def ns_render(pos, expr):
+    out = NS_BASE
+    target = NS_MARKER.get(pos, pos)
+    for name, (default, _) in NS_POS.items():
+        if default is None:
+            continue
+        if pos is not None and name == target:
+            out = out.replace('@@%s@@' % name, NS_POS[pos][1] % expr)
+        else:
+            out = out.replace('@@%s@@' % name, default)
+    if '@@' in out:
+        raise Inconclusive('workflow template has an unfilled marker')
+    return out
 
 
 SCRIPT_POS = [i for i, p in enumerate(POSITIONS) if p[1]]
@@ -304,6 +474,7 @@ def run(ck, tier):
         ck.sample({'expression': lint_pool[len(lint_pool) // 3][0], 'predicted_reports': lint_pool[len(lint_pool) // 3][1]})
     # ---- G: end to end through Linter.Lint
     lint_part(ck, sd, fs, rng, lint_pool, 2500 if tier == 'quick' else 20000)
+    lint_nonscript_part(ck, sd, fs, rng, lint_pool, 30 if tier == 'quick' else 300)
     # ---- T: random deep expressions validated by TLC
     trace_part(ck, sd, fs, documented, 6000 if tier == 'quick' else 40000, tier)
     fs.flush(ck)
@@ -418,6 +589,61 @@ def lint_part(ck, sd, fs, rng, pool, limit):
     if same_as_api:
         ck.cov['lint_renderings_reproducing_api_level_findings'] = same_as_api
     ck.sample({'workflow': cases[0]['src'], 'position': cases[0]['pos'], 'expected_reports': cases[0]['pred']})
+
+
+def lint_nonscript_part(ck, sd, fs, rng, pool, per_pos):
+    """Every non-script position of NS_POS with per_pos different expressions that the real checker
+    reports in a script position.  Expressions are restricted to the `github` context so that
+    they are usable where `matrix` is not available.  Other diagnostics at the position (type of a
+    number/bool field, template type ...) are tolerated: only the absence of untrusted-input reports is
+    demanded.  A probe per position (an undefined property of `github`) shows the position is checked at all."""
+    cand = [x for x in pool if x[2] and x[1] == x[2] and 'matrix' not in x[0]]
+    if len(cand) < 50:
+        raise Inconclusive('only %d reported expressions without `matrix` to render into non-script positions' % len(cand))
+    rng.shuffle(cand)
+    cases = [{'pos': None, 'expr': '', 'probe': False, 'src': ns_render(None, '')}]
+    k = 0
+    for pos in NS_TEST:
+        cases.append({'pos': pos, 'expr': 'github.c11_probe_undefined', 'probe': True,
+                      'src': ns_render(pos, 'github.c11_probe_undefined')})
+        for _ in range(per_pos):
+            text, pred, real = cand[k % len(cand)]
+            k += 1
+            cases.append({'pos': pos, 'expr': text, 'probe': False, 'api': real, 'src': ns_render(pos, text)})
+    fi, fo = os.path.join(sd, 'ns_in.jsonl'), os.path.join(sd, 'ns_out.jsonl')
+    vplib.write_jsonl(fi, [{'id': i, 'src': c['src']} for i, c in enumerate(cases)])
+    vplib.run_harness(['untrusted-lint', fi, fo], timeout=3000)
+    outs = vplib.read_jsonl(fo)
+    tolerated = {}
+    for c, o in zip(cases, outs):
+        if o.get('err'):
+            raise Inconclusive('Lint failed on a rendered workflow (%s): %s' % (c['pos'], o['err']))
+        if c['pos'] is None:
+            if o['reps'] or o['other'] or o['tmpl']:
+                raise Inconclusive('the base workflow of the non-script positions does not lint clean: %r' % (o['other'][:3],))
+            continue
+        if c['probe']:
+            if not any('c11_probe_undefined' in d['msg'] for d in o['other']):
+                raise Inconclusive('position %s is not bound: an undefined property placed there draws no diagnostic (%r)'
+                                   % (c['pos'], o['other'][:2]))
+            continue
+        for d in o['other']:
+            if d['kind'] != 'expression':
+                raise Inconclusive('position %s: unrelated diagnostic %r in\n%s' % (c['pos'], d, c['src']))
+            key = re.sub(r'"[^"]*"', '"_"', d['msg'])[:70]
+            tolerated[key] = tolerated.get(key, 0) + 1
+        got = bag(o['reps'])
+        if got:
+            fs.add('lint:nonscript:%s' % c['pos'], c['expr'],
+                   'non-script position %s: expression %r is reported as untrusted input: %s' % (c['pos'], c['expr'], got),
+                   {'kind': 'lint', 'pos': c['pos'], 'script': False, 'expr': c['expr'], 'src': c['src'], 'expected': [],
+                    'observed': got})
+    ck.cov['evaluations'] += len(cases)
+    ck.cov['nonscript_positions'] = NS_TEST
+    ck.cov['nonscript_renderings'] = len(cases)
+    ck.cov['nonscript_expressions_per_position'] = per_pos
+    ck.cov['nonscript_tolerated_other_diagnostics'] = dict(sorted(tolerated.items(), key=lambda kv: -kv[1])[:6])
+    ck.sample({'workflow': cases[-1]['src'], 'position': cases[-1]['pos'], 'expected_reports': []})
 
 
 # ------------------------------------------------------------------------------------- trace
